@@ -34,6 +34,8 @@ const (
 	StKnobOverride
 	StRand
 	StTaskSwitchForced
+	StAddrGC    // forced collections by the address seam
+	StAddrReuse // a new object took over the simulated address of a dead one
 	NStat
 )
 
@@ -41,7 +43,7 @@ const (
 var StatNames = [NStat]string{
 	"pool_get", "pool_new", "pool_reuse", "pool_put", "pool_drop", "pool_gc", "pool_cross_owner",
 	"pool_double_put", "keys_calls", "keys_permuted", "now_calls", "fs_ops", "fs_faults", "yield",
-	"preempt", "lock_spin", "knob_override", "rand", "task_switch_forced",
+	"preempt", "lock_spin", "knob_override", "rand", "task_switch_forced", "addr_gc", "addr_reuse",
 }
 
 // Pool policies.
@@ -70,20 +72,21 @@ type SchedEntry struct {
 
 // Config is everything that, with the code, determines a run.
 type Config struct {
-	Seed        uint64
-	PoolPolicy  int
-	PoolDropPct int // 0..100: probability (percent) that a Put is dropped
-	MapOrder    int
-	MapRot      int
-	ClockStart  int64 // ns since epoch
-	ClockStep   int64 // ns added by every Now()
-	Knobs       map[string]int
-	PreemptDen  int          // preempt at a yield with probability 1/PreemptDen (0 = never)
-	PCTSteps    []int64      // if non-empty: preempt exactly at these yield steps (target random)
-	Schedule    []SchedEntry // if Explicit: take exactly these decisions
-	Explicit    bool
-	Trace       bool // keep a readable trace of choices (bounded)
-	MaxSteps    int64
+	Seed         uint64
+	PoolPolicy   int
+	PoolDropPct  int // 0..100: probability (percent) that a Put is dropped
+	MapOrder     int
+	MapRot       int
+	ClockStart   int64 // ns since epoch
+	ClockStep    int64 // ns added by every Now()
+	Knobs        map[string]int
+	PreemptDen   int          // preempt at a yield with probability 1/PreemptDen (0 = never)
+	PCTSteps     []int64      // if non-empty: preempt exactly at these yield steps (target random)
+	Schedule     []SchedEntry // if Explicit: take exactly these decisions
+	Explicit     bool
+	Trace        bool // keep a readable trace of choices (bounded)
+	MaxSteps     int64
+	AddrReusePct int // S8: percent chance that a newly seen object reuses a dead object's simulated address (0 = 60)
 }
 
 // World is one simulated execution environment.
@@ -103,6 +106,7 @@ type World struct {
 
 	sched sched
 	fs    simFS
+	addr  addrTab
 
 	pooled  ptrSet // objects currently released to a pool (incl. dropped ones) and not handed out again
 	keep    []interface{}
